@@ -105,7 +105,8 @@ def c15(tier, seed):
 def c06(tier, seed):
     hows = ("new", "newB", "from", "box", "boxB", "unique", "uniqueB")
     return [stage(CT.ctor_stage, "C06", tier, "ctor_honest_" + tier[0], ["fhi", "thin", "collect", "vec", "slice", "str"], False),
-            sized("C06", tier, "sized_ctor_" + tier[0], BASE + ["Shareable", "IntoInner", "TryUnwrap"], 3 if tier == "quick" else 4, 3, 1, hows=hows)]
+            sized("C06", tier, "sized_ctor_" + tier[0], BASE + ["Shareable", "IntoInner", "TryUnwrap"], 3 if tier == "quick" else 4, 3, 1, hows=hows),
+            lay("C06", tier, "layout_matrix_" + tier[0])]
 
 
 def c07(tier, seed):
@@ -192,8 +193,10 @@ def c09(tier, seed):
 def c12(tier, seed):
     ops = BASE + ["FromFirst", "FromSecond", "Borrow", "BorCopy", "Enter", "Exit", "IntoRaw", "FromRaw"]
     if tier == "quick":
-        return [sized("C12", tier, "sized_union_q", ops, 4, 2, 1, hows=("new", "newB")), lay("C12", tier, "layout_matrix_q")]
-    return [sized("C12", tier, "sized_union_t", ops, 5, 2, 1, hows=("new", "newB")), lay("C12", tier, "layout_matrix_t")]
+        return [sized("C12", tier, "sized_union_q", ops, 4, 2, 1, hows=("new", "newB")), lay("C12", tier, "layout_matrix_q"),
+                stage(CM.compare_stage, "C12", tier, "union_variants_q", only=["different variants"])]
+    return [sized("C12", tier, "sized_union_t", ops, 5, 2, 1, hows=("new", "newB")), lay("C12", tier, "layout_matrix_t"),
+            stage(CM.compare_stage, "C12", tier, "union_variants_t", only=["different variants"])]
 
 
 GRAPH_ASSUME = [
